@@ -1,6 +1,7 @@
 (* BuiltinAll.v — the per-builtin theorems collected: every modelled binary_*/vector_* builtin agrees
    with its reference spec; consequences: shape independence and panic-freedom for all of them. *)
 From Quiver Require Import BuiltinWf BinaryProofs BinaryShiftProofs BinaryBitsProofs VectorProofs.
+From Coq Require Import Lia.
 
 (* (implementation model, reference spec) of every binary_* and vector_* builtin *)
 Definition rope_builtins : list ((bval -> outcome bval) * (fval -> outcome fval)) :=
@@ -20,17 +21,19 @@ Definition rope_builtins : list ((bval -> outcome bval) * (fval -> outcome fval)
 
 Theorem rope_builtins_agree : Forall (fun p => agrees (fst p) (snd p)) rope_builtins.
 Proof.
-  unfold rope_builtins. repeat constructor; cbn [fst snd].
-  - exact binary_new_correct. - exact binary_length_correct. - exact binary_concat_correct.
-  - exact binary_repeat_correct. - exact binary_and_correct. - exact binary_or_correct.
-  - exact binary_xor_correct. - exact binary_not_correct. - exact binary_shift_correct.
-  - exact binary_popcount_correct. - exact binary_get_correct. - exact binary_set_correct.
-  - exact binary_slice_correct. - exact binary_index_correct. - exact binary_hash32_correct.
-  - exact binary_hash64_correct. - exact binary_append_correct.
-  - exact vector_add_correct. - exact vector_subtract_correct. - exact vector_multiply_correct.
-  - exact vector_less_than_correct. - exact vector_equal_correct. - exact vector_greater_than_correct.
-  - exact vector_dot_correct. - exact vector_take_correct. - exact vector_get_correct.
-  - exact vector_push_correct. - exact vector_sum_correct.
+  unfold rope_builtins.
+  repeat (apply Forall_cons; [cbn [fst snd]; first
+    [ exact binary_new_correct | exact binary_length_correct | exact binary_concat_correct
+    | exact binary_repeat_correct | exact binary_and_correct | exact binary_or_correct
+    | exact binary_xor_correct | exact binary_not_correct | exact binary_shift_correct
+    | exact binary_popcount_correct | exact binary_get_correct | exact binary_set_correct
+    | exact binary_slice_correct | exact binary_index_correct | exact binary_hash32_correct
+    | exact binary_hash64_correct | exact binary_append_correct
+    | exact vector_add_correct | exact vector_subtract_correct | exact vector_multiply_correct
+    | exact vector_less_than_correct | exact vector_equal_correct | exact vector_greater_than_correct
+    | exact vector_dot_correct | exact vector_take_correct | exact vector_get_correct
+    | exact vector_push_correct | exact vector_sum_correct ] |]).
+  apply Forall_nil.
 Qed.
 
 (* results do not depend on how an argument binary was built: equal flattened arguments (equal
